@@ -153,6 +153,28 @@ fn relabel(t: &mut T, next: &mut u32) {
     }
 }
 
+/// make some sibling an exact copy of its left neighbour (same labels, same shape): parts that compare equal are
+/// still different parts with their own specifiers
+fn duplicate_siblings(t: &mut T, rng: &mut Rng) -> bool {
+    match t {
+        T::L(_) => false,
+        T::M(_, cs) => {
+            let mut done = false;
+            if cs.len() >= 2 && rng.chance(1, 2) {
+                let i = rng.below(cs.len() - 1);
+                cs[i + 1] = cs[i].clone();
+                done = true;
+            }
+            for c in cs.iter_mut() {
+                if rng.chance(1, 3) && duplicate_siblings(c, rng) {
+                    done = true;
+                }
+            }
+            done
+        }
+    }
+}
+
 fn random_tree(rng: &mut Rng, depth: usize, budget: &mut usize) -> T {
     if depth == 0 || *budget == 0 || rng.chance(2, 5) {
         return T::L(0);
@@ -203,6 +225,17 @@ pub fn main(args: &[String]) {
         let mut next = 0;
         relabel(&mut t, &mut next);
         trees.push((t, next));
+    }
+    // trees in which some siblings are identical copies of each other
+    let base: Vec<(T, u32)> = trees.iter().filter(|(_, n)| *n >= 3).cloned().collect();
+    for (i, (t, n)) in base.iter().enumerate() {
+        if i % 3 != 0 {
+            continue;
+        }
+        let mut t2 = t.clone();
+        if duplicate_siblings(&mut t2, &mut rng) {
+            trees.push((t2, *n));
+        }
     }
     for (t, n) in &trees {
         let mut s = String::new();
